@@ -6,7 +6,7 @@ Independent reference for the monitors: Python's `json` (strict RFC 8259 decoder
 `'%.17g'`, `struct` — nothing of the model is used by a monitor.
 """
 import json, os, re, struct, sys
-from vlib.core import Ctx, hexs, unhex, ddmin, LEAN
+from vlib.core import Ctx, hexs, unhex, ddmin, LEAN, ModelBuildError
 
 try:
     sys.set_int_max_str_digits(0)
@@ -16,11 +16,30 @@ except AttributeError:
 ID = "C13"
 MODULES = ["IoraModel.Props.C13"]
 OBLIGATIONS = [
+    {"id": "C13_J1", "theorem": "Iora.C13.J1_accept_and_decode", "kind": "proved",
+     "statement": "for every RFC 8259 syntax tree t (all escape forms incl. \\uXXXX either case, surrogate pairs, all number forms, white space, nesting, duplicate keys) within the limits: parse (render t) = ok (denote t)"},
+    {"id": "C13_J2", "theorem": "Iora.C13.J2_roundtrip", "kind": "proved",
+     "statement": "for every value (int64 ints, doubles under RoundTrips, strings, nested arrays/objects with distinct keys) within the limits, compact or pretty, any white-space indent: parse (serialize v) = ok v"},
+    {"id": "C13_J2_sorted", "theorem": "Iora.C13.J2_roundtrip_sorted", "kind": "proved",
+     "statement": "with sortKeys: parse (serialize v) = ok (sortDeep v) and sortDeep v == v for Json::operator== (unordered_map equality)"},
+    {"id": "C13_J3", "theorem": "Iora.C13.J3_output_in_grammar", "kind": "proved",
+     "statement": "serialize output is the rendering of a well-formed RFC 8259 syntax tree denoting the value (resp. sortDeep of it)"},
     {"id": "C13_J4_offset", "theorem": "Iora.C13.J4_error_offset", "kind": "proved",
      "statement": "arbitrary bytes/limits: a parse failure reports an offset <= input length and is never the model's budget outcome (recursion bounds never hit: totality)"},
+    {"id": "C13_J4_limits", "theorem": "Iora.C13.J4_limits", "kind": "proved",
+     "statement": "arbitrary bytes: an accepted value has depth <= depthMax, arrays <= arrayItemsMax, objects <= membersMax, strings/keys <= stringLengthMax + 4, and distinct keys"},
+    {"id": "C13_J5", "theorem": "Iora.C13.J5_last_wins", "kind": "proved",
+     "statement": "for every object text within the limits the decoded object maps each key to the value of the LAST member of that name; keys are distinct"},
+    {"id": "C13_J5_assign", "theorem": "Iora.C13.J5_assign", "kind": "proved",
+     "statement": "lookup after obj[k] = v yields v for k and is unchanged for every other key"},
+    {"id": "C13_U1", "theorem": "Iora.C13.U1_utf8", "kind": "proved",
+     "statement": "_appendUtf8 = Lean's String.utf8EncodeChar on every Char; every \\u escape decodes to a Unicode scalar value appended as its UTF-8 encoding"},
+    {"id": "C13_gen", "theorem": "Iora.C13.gen_conformance", "kind": "proved",
+     "statement": "what the model hard-codes (error messages per function, literals, dispatch bytes, delegated primitives, hex ranges, UTF-8 literals, format recipe, separators) equals the facts regenerated from the source"},
 ]
 ANCHOR_FILES = ["include/iora/parsers/json.hpp"]
-NOT_PROVED = []
+NOT_PROVED = ["RoundTrips for the concrete libc primitives (strtod / snprintf %.17g are correctly rounded and 17 significant digits determine a binary64): assumed in J2/J3, "
+              "validated bit for bit by the lockstep against Model/JsonFloat.lean (exact big-integer arithmetic) and against Python's float()/'%.17g'"]
 
 
 # ------------------------------------------------------------------------------------------------ reference decoder
@@ -408,7 +427,7 @@ def parse_op(lim, text):
 def gen_parse_cases(rng, scale, dflt, st):
     cases = []
     # (a) grammar-generated valid texts, default limits
-    for i in range(1500 * scale):
+    for i in range(3000 * scale):
         t = gen_ws(rng) + gen_text(rng, st, 0, rng.choice([0, 1, 2, 3, 4, 6])) + gen_ws(rng)
         cases.append({"cat": "grammar", "ops": [parse_op(dflt, t)]})
     # every single escape form / every code-point boundary on its own
@@ -510,12 +529,12 @@ def gen_mutated_cases(rng, scale, dflt, st):
         t = gen_text(rng, st, 0, 3)
         if len(t) <= 80:
             cases.append({"cat": "prefix", "ops": [parse_op(dflt, t[:i]) for i in range(len(t) + 1)]})
-    for i in range(1200 * scale):
+    for i in range(2500 * scale):
         base = rng.choice(seeds) if rng.chance(1, 4) else gen_text(rng, st, 0, rng.choice([1, 2, 3]))
         lim = dflt if rng.chance(3, 4) else (rng.choice([0, 1, 2, 100]), rng.choice([0, 1, 2, 10000]), rng.choice([0, 1, 2, 10000]), rng.choice([0, 1, 3, 1000000]))
         cases.append({"cat": "mutated", "ops": [parse_op(lim, mutate(rng, base))]})
     alpha = bytes(SPECIAL_BYTES)
-    for i in range(500 * scale):
+    for i in range(1000 * scale):
         n = rng.range(0, 24)
         t = bytes(rng.choice(alpha) for _ in range(n)) if rng.chance(2, 3) else rng.bytes(n)
         cases.append({"cat": "random-bytes", "ops": [parse_op(dflt, t)]})
@@ -616,7 +635,7 @@ def has_object(v):
 def gen_ser_specs(rng, scale, st):
     """(pretty, sort, indent, src, value or None)"""
     specs = []
-    for i in range(900 * scale):
+    for i in range(2000 * scale):
         v = gen_value(rng, st, 0, rng.choice([0, 0, 1, 2, 3, 4]))
         specs.append((rng.below(2), rng.below(2), rng.choice(INDENTS), "v" + v_canon(v), v))
     for b in DOUBLE_EDGES:
@@ -631,7 +650,7 @@ def gen_ser_specs(rng, scale, st):
             if -2 ** 63 <= x < 2 ** 63:
                 specs.append((0, 0, b"  ", "v" + v_canon(x), x))
     # texts: parse, then serialize what was parsed
-    for i in range(300 * scale):
+    for i in range(600 * scale):
         t = gen_text(rng, st, 0, rng.choice([1, 2, 3, 4]))
         specs.append((rng.below(2), rng.below(2), rng.choice(INDENTS), "t" + t.hex(), NOVALUE))
     # deep values (serializer recursion, pretty indentation at depth)
@@ -762,15 +781,18 @@ def gen_defaults():
 
 
 def run(ctx: Ctx):
+    if ctx.replay:
+        return replay(ctx)
     quick = ctx.tier == "quick"
     scale = 1 if quick else 12
     rng = ctx.rng
     ctx.translate(["json"])
-    ok_build = ctx.lake_build(MODULES + ["iora_model"])
+    ok_build = ctx.lake_build(MODULES)
     if ok_build:
         ctx.audit(MODULES, OBLIGATIONS)
         if not quick:
-            ctx.leanchecker(MODULES + ["IoraModel.Lemmas.Json", "IoraModel.Model.Json", "IoraModel.Gen.Json"])
+            ctx.leanchecker(MODULES + ["IoraModel.Lemmas.Json", "IoraModel.Lemmas.JsonSpec", "IoraModel.Lemmas.JsonSer", "IoraModel.Lemmas.JsonSort",
+                                       "IoraModel.Lemmas.JsonLimits", "IoraModel.Model.Json", "IoraModel.Model.JsonSpec", "IoraModel.Gen.Json"])
     else:
         ctx.cov["obligations"] = len(OBLIGATIONS)
     hb = ctx.build_harness("harness/c13_json.cpp", sanitize=True)
@@ -781,7 +803,6 @@ def run(ctx: Ctx):
              "ser_ops": 0, "ser_with_hash_order": 0}
     if hb:
         dflt = gen_defaults()
-        have_model = os.path.exists(ctx.model_bin())
         cases = load_corpus()
         cases += gen_parse_cases(rng.fork("parse"), scale, dflt, st)
         cases += gen_mutated_cases(rng.fork("mut"), scale, dflt, st)
@@ -802,14 +823,7 @@ def run(ctx: Ctx):
             cases.append({"cat": "ser-value" if v is not NOVALUE else "ser-text", "ops": [op]})
             stats["ser_ops"] += 1
             stats["ser_with_hash_order"] += o != "-"
-        if have_model:
-            res = ctx.lockstep("json", hb, cases, timeout=1200)
-        else:
-            res = []
-            for c in cases:
-                out, rc, err = ctx.run_lines([hb], c["ops"])
-                out += ["crash:rc=%s" % rc] * (len(c["ops"]) - len(out))
-                res.append((c, out, [None] * len(c["ops"])))
+        res = run_cases(ctx, hb, cases)
         n_mismatch = 0
         for c, impl, model in res:
             dist[c["cat"]] = dist.get(c["cat"], 0) + 1
@@ -868,6 +882,44 @@ def run(ctx: Ctx):
                       "evaluations = ops; distinct = distinct op lines; non-trivial = any answer other than `err eof 0` / bad-op")
 
 
+def run_cases(ctx, hb, cases):
+    """lockstep; when the model driver cannot be built (already reported as a proof violation) the implementation still runs alone,
+    so that the property monitors can supply a failing input"""
+    try:
+        return ctx.lockstep("json", hb, cases, timeout=1200)
+    except ModelBuildError:
+        res = []
+        for c in cases:
+            out, rc, err = ctx.run_lines([hb], c["ops"])
+            out += ["crash:rc=%s" % rc] * (len(c["ops"]) - len(out))
+            res.append((c, out, [None] * len(c["ops"])))
+        return res
+
+
+def replay(ctx):
+    """Re-run the op list of a replay / corpus file on the real code and the model; exit 1 if the failure is still there."""
+    obj = json.load(open(ctx.replay))
+    ops = obj.get("ops") or []
+    ctx.translate(["json"])
+    ctx.lake_build(MODULES)
+    hb = ctx.build_harness("harness/c13_json.cpp", sanitize=True)
+    if not hb or not ops:
+        print("replay: nothing to run (kind=%s)" % obj.get("kind"))
+        return 1 if ctx.violations else 0
+    (c, impl, model), = run_cases(ctx, hb, [{"cat": obj.get("category", "corpus"), "ops": ops}])
+    still = False
+    for o, a, b in zip(ops, impl, model):
+        print("op    %s\n impl  %s\n model %s" % (o[:200], a[:200], (b or "-")[:200]))
+        f = monitor_parse(o, a)[0] if o.startswith("parse ") else monitor_ser(o, a, NOVALUE) if o.startswith("ser ") else []
+        for x in f:
+            print("PROPERTY FAILS:", x[:300])
+        still = still or bool(f) or (b is not None and a != b)
+    print("replay: %s" % ("still failing" if still else "no longer failing"))
+    import shutil
+    shutil.rmtree(ctx.work, ignore_errors=True)
+    return 1 if still else 0
+
+
 def report_property(ctx, hb, c, impl, model, fails):
     op, what = fails[0]
     if not ctx.violation_budget("property", what):
@@ -893,7 +945,8 @@ def report_property(ctx, hb, c, impl, model, fails):
         except Exception:
             pass
     out, rc, err = ctx.run_lines([hb], ops, timeout=120)
-    obj = {"ops": ops, "observed": out or ["crash:rc=%s" % rc], "original_op": op[:2000], "failures": [w for _, w in fails[:5]], "category": c["cat"],
+    san = re.search(r"SUMMARY: (\w+Sanitizer): ([\w-]+)[^\n]*", err or "")
+    obj = {"sanitizer": san.group(0)[:300] if san else None, "ops": ops, "observed": out or ["crash:rc=%s" % rc], "original_op": op[:2000], "failures": [w for _, w in fails[:5]], "category": c["cat"],
            "expected_by_model": [m for o, m in zip(c["ops"], model) if o == op][:1], "stderr_tail": err[-800:] if rc else ""}
     ctx.violation("property", what, obj, found_input=True)
 
